@@ -152,7 +152,7 @@ struct Layout : Profile {
     {
         return {"chunked", "chunked+compressed", "chunked+nbit", "compressed", "nbit", "external", "blocksize", "edge-chunk", "chunk-write",
                 "chunk-read", "cache-1", "fill-checked", "reopen", "unlimited-grow", "strided-read", "chunk-larger-than-extent",
-                "layout-selected-later", "gr-chunked", "gr-chunked+compressed", "gr-compressed", "gr-chunk-write", "gr-chunk-read", "gr-chunk-read-interlaced"};
+                "layout-selected-later", "high-rank", "rank>=19", "gr-chunked", "gr-chunked+compressed", "gr-compressed", "gr-chunk-write", "gr-chunk-read", "gr-chunk-read-interlaced"};
     }
 
     // ------------------------------------------------------------------ generator
@@ -219,6 +219,9 @@ struct Layout : Profile {
                 if (r.chance(0.6))
                     p.ops.push_back(mkop(0, "reopen", {}));
             }
+        // chunking is per dimension: a dataset of high rank (up to the documented 32) in a chunked and a contiguous layout
+        if (r.chance(0.15))
+            p.ops.push_back(mkop(0, "hirank", {r.range(4, 32), (int64_t)r.below(3), (int64_t)(r.next() >> 16)}));
         // a raster image in several layouts (in about half of the plans)
         bool gr = r.chance(0.5);
         int  gw = 1, gh = 1;
@@ -1025,7 +1028,57 @@ struct Layout : Profile {
             bool               done = true;
             int                si   = modn(o.arg(0), NSLOT);
             Slot              &q    = s.sl[si];
-            if (k[0] == 'g')
+            if (k == "hirank") {
+                // rank r, extents 1 except the last two dimensions (2 x 3); chunk lengths 1 except the last (2): 6 values
+                int   rank = (int)std::max<int64_t>(1, std::min<int64_t>(o.arg(0), H4_MAX_VAR_DIMS));
+                int32 dims[H4_MAX_VAR_DIMS], st[H4_MAX_VAR_DIMS];
+                HDF_CHUNK_DEF cd;
+                memset(&cd, 0, sizeof cd);
+                for (int d = 0; d < rank; d++) {
+                    dims[d]             = d == rank - 1 ? 3 : d == rank - 2 ? 2 : 1;
+                    st[d]               = 0;
+                    cd.chunk_lengths[d] = d == rank - 1 ? 2 : 1;
+                }
+                open_sd(s);
+                int32 v[6], g[6];
+                for (int j = 0; j < 6; j++)
+                    v[j] = (int32)mix64((uint64_t)o.arg(2), (uint64_t)j);
+                int   n    = rank == 1 ? 3 : 6;
+                int32 a    = SDcreate(s.sd, strf("hr_c_%zu", i).c_str(), DFNT_INT32, rank, dims);
+                int32 b    = SDcreate(s.sd, strf("hr_k_%zu", i).c_str(), DFNT_INT32, rank, dims);
+                bool  comp = o.arg(1) == 1;
+                if (comp) {
+                    for (int d = 0; d < rank; d++)
+                        cd.comp.chunk_lengths[d] = cd.chunk_lengths[d];
+                    cd.comp.comp_type           = COMP_CODE_DEFLATE;
+                    cd.comp.cinfo.deflate.level = 2;
+                }
+                if (a == FAIL || b == FAIL || SDsetchunk(b, cd, comp ? (HDF_CHUNK | HDF_COMP) : HDF_CHUNK) == FAIL)
+                    ctx.fail("layout-refused", "layout-refused:high-rank", strf("creating a chunked dataset of rank %d failed: %s", rank, herr().c_str()));
+                if (SDwritedata(a, st, NULL, dims, v) == FAIL || SDwritedata(b, st, NULL, dims, v) == FAIL)
+                    ctx.fail("write-refused", "write-refused:high-rank", strf("writing a dataset of rank %d failed: %s", rank, herr().c_str()));
+                SDendaccess(a);
+                SDendaccess(b);
+                if (o.arg(1) != 2)
+                    close_sd(s); // read back in a later session (or, mode 2, in this one)
+                open_sd(s);
+                for (const char *pre : {"hr_c_", "hr_k_"}) {
+                    int32 ix = SDnametoindex(s.sd, strf("%s%zu", pre, i).c_str()), id = ix == FAIL ? FAIL : SDselect(s.sd, ix);
+                    memset(g, 0x5A, sizeof g);
+                    ctx.st.checks++;
+                    if (id == FAIL || SDreaddata(id, st, NULL, dims, g) == FAIL)
+                        ctx.fail("read-refused", strf("read-refused:high-rank:%s", pre[3] == 'k' ? "chunked" : "contiguous"),
+                                 strf("a %s dataset of rank %d that was created and written cannot be read%s: %s", pre[3] == 'k' ? "chunked" : "contiguous", rank,
+                                      o.arg(1) != 2 ? " after reopen" : "", herr().c_str()));
+                    if (memcmp(g, v, (size_t)n * 4) != 0)
+                        ctx.fail("layout-mismatch", strf("layout-mismatch:high-rank:%s", pre[3] == 'k' ? "chunked" : "contiguous"), strf("a dataset of rank %d reads back other values", rank));
+                    SDendaccess(id);
+                }
+                ctx.probe("high-rank");
+                if (rank >= 19)
+                    ctx.probe("rank>=19");
+            }
+            else if (k[0] == 'g')
                 done = gop(s, o);
             else if (k == "slot") {
                 if (q.exists)
